@@ -76,6 +76,41 @@ Proof.
   exact (item_good_same _ _ _ _ G G').
 Qed.
 
+(* ------------------------------------------------------------------ releasing a foreign block offsets nothing, in whole runs *)
+Lemma item_good_ext base t t' o :
+  own_failures (executed t) = own_failures (executed t') -> asked_ignore (executed t) = asked_ignore (executed t') ->
+  declared (executed t) = declared (executed t') -> leaked base (executed t) = leaked base (executed t') ->
+  item_good base t o -> item_good base t' o.
+Proof. unfold item_good, verdict. intros -> -> -> ->. auto. Qed.
+
+Lemma nth_here {A} (d x : A) P Q : nth (length P) (P ++ x :: Q) d = x.
+Proof. rewrite app_nth2, Nat.sub_diag by lia. reflexivity. Qed.
+Lemma firstn_here {A} (x : A) P Q : firstn (length P) (P ++ x :: Q) = P.
+Proof. rewrite firstn_app, Nat.sub_diag, firstn_all. cbn. apply app_nil_r. Qed.
+
+Lemma foreign_release_changes_no_verdict pre P Q t t' tail tail' k k' j A B id :
+  executed t = A ++ SFree id :: B -> executed t' = A ++ B -> t_before t = t_before t' ->
+  existsb (allocates id) A = false ->
+  valid (mkS pre (P ++ t :: Q) tail k) = true -> valid (mkS pre (P ++ t' :: Q) tail' k') = true ->
+  (j < length (P ++ t :: Q))%nat ->
+  item_same (nth j (o_tests (run (mkS pre (P ++ t :: Q) tail k))) no_item) (nth j (o_tests (run (mkS pre (P ++ t' :: Q) tail' k'))) no_item).
+Proof.
+  intros E E' EB HA HV HV' Hlt.
+  assert (Hlt' : (j < length (P ++ t' :: Q))%nat) by (rewrite app_length in *; cbn [length] in *; lia).
+  pose proof (item_of _ j HV Hlt) as G. pose proof (item_of _ j HV' Hlt') as G'. unfold base_of in G, G'. cbn [s_tests s_pre] in G, G'.
+  assert (EA : allocs (text_of t) = allocs (text_of t')).
+  { unfold text_of. rewrite E, E', EB, !allocs_app. unfold allocs at 3. cbn [filter is_alloc]. reflexivity. }
+  destruct (Nat.eq_dec j (length P)) as [->|Hj].
+  - unfold base_from in G, G'. rewrite nth_here, firstn_here in G, G'. rewrite <- EB in G'.
+    refine (item_good_same _ _ _ _ _ G'). revert G. apply item_good_ext; rewrite E, E'.
+    + unfold own_failures. rewrite !filter_app. reflexivity.
+    + unfold asked_ignore. rewrite !existsb_app. reflexivity.
+    + unfold declared. rewrite !fold_left_app. reflexivity.
+    + apply foreign_release_no_offset. assumption.
+  - rewrite (base_other _ P Q t t' j EA Hj), (nth_other no_test t t' P Q j Hj) in G.
+    exact (item_good_same _ _ _ _ G G').
+Qed.
+
 (* satisfiable: the example program, and the same program with test 1 declaring something else *)
 Example carry_example :
   let t := nth 1 (s_tests example_s) no_test in
@@ -83,3 +118,9 @@ Example carry_example :
   strip_test t = strip_test t' /\
   valid (mkS (s_pre example_s) (firstn 1 (s_tests example_s) ++ t' :: skipn 2 (s_tests example_s)) [] 2) = true.
 Proof. vm_compute. split; reflexivity. Qed.
+Example release_example :
+  let t := nth 1 (s_tests example_s) no_test in
+  let t' := mkT (t_before t) [] [] [SAlloc 3 1 0; SExpect 1] [] [] in
+  executed t = [] ++ SFree 2 :: [SAlloc 3 1 0; SExpect 1] /\ executed t' = [] ++ [SAlloc 3 1 0; SExpect 1] /\
+  valid (mkS (s_pre example_s) (firstn 1 (s_tests example_s) ++ t' :: skipn 2 (s_tests example_s)) [] 0) = true.
+Proof. vm_compute. repeat split; reflexivity. Qed.
